@@ -40,11 +40,20 @@ def main():
         os.makedirs(W + "/lib", exist_ok=True)
         shutil.copy("%s/demo%s.cpp" % (D, k), W + "/demo.cpp")
         old = "%s/%s" % (src, prop)
-        build = meta.get("demo_build", "").replace(old + "/DELIVER/demo%s.cpp" % k, W + "/demo.cpp").replace(old + "/DELIVER/demo%s" % k, W + "/demo_bin").replace(old, W)
-        build = re.sub(r"(?<![\w/])demo%s\.cpp" % k, W + "/demo.cpp", build)
-        build = re.sub(r"-o\s+\S+", "-o " + W + "/demo_bin", build)
-        if "-o " not in build:
-            build += " -o " + W + "/demo_bin"
+        build = meta.get("demo_build", "")
+        build = re.sub(r"\s+\(.*$", "", build.strip())              # drop trailing remarks
+        toks = []
+        skip = False
+        for t in build.split():
+            if skip:
+                skip = False; continue
+            if t == "-o":
+                skip = True; continue
+            if t.endswith("demo%s.cpp" % k):
+                t = W + "/demo.cpp"
+            t = t.replace(old, W)
+            toks.append(t)
+        build = " ".join(toks) + " -o " + W + "/demo_bin"
         run = "LD_LIBRARY_PATH=%s/lib %s/demo_bin" % (W, W)
         res["demo_build"] = build
         env = dict(os.environ, ASAN_OPTIONS="detect_leaks=1", TSAN_OPTIONS="halt_on_error=1 exitcode=66")
